@@ -217,6 +217,126 @@ theorem stackAlong_sub_inScope (rest : List Tree) (r : Tree) (hr : r ∈ rest) (
   simp only [List.mem_append]
   exact Or.inl (traverseChain_yields rest [] b.1 b.2 (by simp) key hu)
 
+/-! #### the converse: what `namespaces_in_scope` lists is on the serializer's stack -/
+
+theorem lookup_none_no_key : ∀ (d : List (Nat × Nat)) (q : Nat), d.lookup q = none → ∀ x ∈ d, x.1 ≠ q
+  | [], _, _, x, hx => by cases hx
+  | (p, m) :: d, q, h, x, hx => by
+    rw [lookup_cons_eq] at h
+    by_cases e : q = p
+    · rw [if_pos e] at h; cases h
+    · rw [if_neg e] at h
+      rcases List.mem_cons.mp hx with rfl | hx'
+      · exact fun e' => e e'.symm
+      · exact lookup_none_no_key d q h x hx'
+
+theorem traverseDecls_seen_mono : ∀ (d : List (Nat × Nat)) (seen : List Nat),
+    (∀ q ∈ seen, q ∈ (traverseDecls seen d).1) ∧ (∀ x ∈ d, x.1 ∈ (traverseDecls seen d).1)
+  | [], seen => by simp [traverseDecls]
+  | (p, m) :: d, seen => by
+    simp only [traverseDecls]
+    by_cases hc : seen.contains p = true
+    · simp only [hc, if_true]
+      obtain ⟨h1, h2⟩ := traverseDecls_seen_mono d seen
+      refine ⟨h1, ?_⟩
+      intro x hx
+      rcases List.mem_cons.mp hx with rfl | hx'
+      · exact h1 _ (by simpa using hc)
+      · exact h2 x hx'
+    · simp only [hc, Bool.false_eq_true, if_false]
+      obtain ⟨h1, h2⟩ := traverseDecls_seen_mono d (seen ++ [p])
+      refine ⟨fun q hq => h1 q (by simp [hq]), ?_⟩
+      intro x hx
+      rcases List.mem_cons.mp hx with rfl | hx'
+      · exact h1 _ (by simp)
+      · exact h2 x hx'
+
+/-- What one declaration list yields is its first declaration of a prefix not seen before. -/
+theorem traverseDecls_out_first : ∀ (d : List (Nat × Nat)) (seen : List Nat) (b : Nat × Nat),
+    b ∈ (traverseDecls seen d).2 → b.1 ∉ seen ∧ d.lookup b.1 = some b.2
+  | [], _, _, h => by simp [traverseDecls] at h
+  | (p, m) :: d, seen, b, h => by
+    simp only [traverseDecls] at h
+    rw [lookup_cons_eq]
+    by_cases hc : seen.contains p = true
+    · simp only [hc, if_true] at h
+      obtain ⟨h1, h2⟩ := traverseDecls_out_first d seen b h
+      have : b.1 ≠ p := fun e => h1 (e ▸ (by simpa using hc))
+      rw [if_neg this]
+      exact ⟨h1, h2⟩
+    · simp only [hc, Bool.false_eq_true, if_false] at h
+      have hp : p ∉ seen := by simpa using hc
+      have tail : b ∈ (traverseDecls (seen ++ [p]) d).2 → b.1 ∉ seen ∧
+          (if b.1 = p then some m else d.lookup b.1) = some b.2 := by
+        intro hb
+        obtain ⟨h1, h2⟩ := traverseDecls_out_first d (seen ++ [p]) b hb
+        simp only [List.mem_append, List.mem_singleton, not_or] at h1
+        rw [if_neg h1.2]
+        exact ⟨h1.1, h2⟩
+      split at h
+      · exact tail h
+      · rcases List.mem_cons.mp h with rfl | h'
+        · exact ⟨hp, by simp⟩
+        · exact tail h'
+
+theorem traverseChain_out_nearest : ∀ (chain : List Tree) (seen : List Nat) (b : Nat × Nat),
+    b ∈ (traverseChain seen chain).2 → b.1 ∉ seen ∧ nearestDecl chain b.1 = some b.2
+  | [], _, _, h => by simp [traverseChain] at h
+  | t :: rest, seen, b, h => by
+    simp only [traverseChain, List.mem_append] at h
+    simp only [nearestDecl]
+    rcases h with h | h
+    · obtain ⟨h1, h2⟩ := traverseDecls_out_first t.nsDecls seen b h
+      rw [h2]
+      exact ⟨h1, rfl⟩
+    · obtain ⟨h1, h2⟩ := traverseChain_out_nearest rest _ b h
+      obtain ⟨m1, m2⟩ := traverseDecls_seen_mono t.nsDecls seen
+      have hs : b.1 ∉ seen := fun hq => h1 (m1 _ hq)
+      have hl : t.nsDecls.lookup b.1 = none := by
+        cases hl : t.nsDecls.lookup b.1 with
+        | none => rfl
+        | some n => exact absurd (m2 _ (lookup_some_mem _ _ _ hl)) h1
+      rw [hl]
+      exact ⟨hs, h2⟩
+
+theorem nearestDecl_on_stack : ∀ (rest : List Tree) (L0 : List (Nat × Nat)) (q n : Nat), ChainOK rest →
+    nearestDecl rest q = some n → (q, n) ∈ stackAlong L0 rest
+  | [], _, _, _, _, h => by simp [nearestDecl] at h
+  | a :: more, L0, q, n, ok, h => by
+    have oka := ok a (by simp)
+    have okm : ChainOK more := fun x hx => ok x (by simp [hx])
+    simp only [nearestDecl] at h
+    simp only [stackAlong]
+    cases hl : a.nsDecls.lookup q with
+    | some m =>
+      rw [hl] at h
+      cases h
+      have hel : a.value.isElement = true := by
+        cases he : a.value.isElement with
+        | true => rfl
+        | false => rw [oka.1 he] at hl; simp at hl
+      rw [if_pos hel, mem_fullnameInfoNew]
+      exact Or.inl (lookup_some_mem _ _ _ hl)
+    | none =>
+      rw [hl] at h
+      have ih := nearestDecl_on_stack more L0 q n okm h
+      by_cases hel : a.value.isElement = true
+      · rw [if_pos hel, mem_fullnameInfoNew]
+        exact Or.inr ⟨ih, lookup_none_no_key _ _ hl⟩
+      · rw [if_neg hel]; exact ih
+
+/-- (S') Every binding that `namespaces_in_scope` lists for the chain, the `xml` one aside, is on
+    the serializer's stack there. -/
+theorem inScope_sub_stackAlong (rest : List Tree) (L0 : List (Nat × Nat)) (ok : ChainOK rest)
+    (b : Nat × Nat) (hb : b ∈ namespacesInScopeChain rest) (hx : b.1 ≠ Env.xmlPrefix) :
+    b ∈ stackAlong L0 rest := by
+  unfold namespacesInScopeChain at hb
+  simp only [List.mem_append, List.mem_filter] at hb
+  rcases hb with h | ⟨h, _⟩
+  · exact nearestDecl_on_stack rest L0 b.1 b.2 ok (traverseChain_out_nearest rest [] b h).2
+  · simp only [basePrefixes, List.mem_singleton] at h
+    exact absurd (by rw [h]) hx
+
 theorem stackAlong_append (L0 : List (Nat × Nat)) (A B : List Tree) :
     stackAlong L0 (A ++ B) = stackAlong (stackAlong L0 B) A := by
   induction A with
